@@ -159,7 +159,7 @@ def recording(contracts=True, gmm=True, merges=True):
                 mod = importlib.import_module(modname)
                 orig = getattr(mod, fname)
                 saved.append((mod, fname, orig))
-                setattr(mod, fname, icontract.ensure(cond, error=ContractBroken)(orig))
+                setattr(mod, fname, icontract.ensure(cond, error=ContractBroken, enabled=True)(orig))
         if gmm:
             orig_best = layer.best_gmm
             saved.append((layer, 'best_gmm', orig_best))
